@@ -193,6 +193,8 @@ pub struct JobMsg {
     pub sleep_ms: u64,
     /// how often a worker has started this job (a retried job is the same message object)
     pub tries: u32,
+    /// call_job: the worker answers here when it completed the job
+    pub reply: Option<RpcReplyPort<i64>>,
 }
 impl Message for JobMsg {}
 /// every job of the harness travels as a RetriableMessage (strategy NoRetry for ordinary jobs)
@@ -206,6 +208,8 @@ pub enum COp {
     Submit { id: i64, key: u64, ttl: Option<u64>, port: bool, beh: Beh, yields: u8, sleep_ms: u64 },
     /// a retriable job (RetriableMessage::from_job + retry hook), `retries` = MessageRetryStrategy::Count
     SubmitRetriable { id: i64, key: u64, ttl: Option<u64>, retries: usize, beh: Beh, sleep_ms: u64 },
+    /// call_job / call_job_with_options: dispatch and wait for the worker's answer
+    Call { id: i64, key: u64, ttl: Option<u64>, beh: Beh, sleep_ms: u64 },
     Adjust(usize),
     Drain,
     Update { limit: Option<(usize, bool)>, wc: Option<usize> }, // (limit, newest?)
@@ -338,6 +342,9 @@ impl Actor for HWorker {
                 match beh {
                     Beh::PanicFirst => unreachable!(),
                     Beh::Ok => {
+                        if let Some(p) = job.msg.message.as_mut().and_then(|m| m.reply.take()) {
+                            let _ = p.send(id);
+                        }
                         job.msg.completed();
                         let ok = st.factory.cast(FactoryMessage::Finished(st.wid, key)).is_ok();
                         end(st, "ok", i64::from(ok));
@@ -529,7 +536,7 @@ async fn client(sc: Arc<FScn>, w: W, f: ActorRef<FactoryMessage<u64, HMsg>>, ops
             COp::Sleep(ms) => ractor::concurrency::sleep(Duration::from_millis(ms)).await,
             COp::Submit { id, key, ttl, port, beh, yields, sleep_ms } => {
                 // the FactoryRef-style entry points, one per shape of job
-                let payload = JobMsg { id, beh, yields, sleep_ms, tries: 0 };
+                let payload = JobMsg { id, beh, yields, sleep_ms, tries: 0, reply: None };
                 let mut rx = None;
                 let ok = if port {
                     let mut job = Job::with_options(key, RetriableMessage::new(key, payload, MessageRetryStrategy::NoRetry), JobOptions::new(ttl.map(Duration::from_millis)));
@@ -570,7 +577,7 @@ async fn client(sc: Arc<FScn>, w: W, f: ActorRef<FactoryMessage<u64, HMsg>>, ops
                 }
             }
             COp::SubmitRetriable { id, key, ttl, retries, beh, sleep_ms } => {
-                let payload = JobMsg { id, beh, yields: 0, sleep_ms, tries: 0 };
+                let payload = JobMsg { id, beh, yields: 0, sleep_ms, tries: 0, reply: None };
                 let mut job = RetriableMessage::from_job(Job::with_options(key, payload, JobOptions::new(ttl.map(Duration::from_millis))), MessageRetryStrategy::Count(retries), f.clone());
                 job.msg.set_retry_hook(move |_k: &u64| obs("obs.retry", 0, vec![kvi("id", id)]));
                 let ok = match f.dispatch_job(job) {
@@ -597,6 +604,30 @@ async fn client(sc: Arc<FScn>, w: W, f: ActorRef<FactoryMessage<u64, HMsg>>, ops
                         kvi("retries", retries as i64),
                     ],
                 );
+            }
+            COp::Call { id, key, ttl, beh, sleep_ms } => {
+                let nd = sc.prioq && sc.nd_keys.contains(&key);
+                let prioq = sc.prioq;
+                let f2 = f.clone();
+                // the builder runs right before the cast, in the same poll: the cast succeeds iff the factory still admits messages
+                let build = move |port: RpcReplyPort<i64>| {
+                    let ok = (f2.get_status() as i64) < (ractor::ActorStatus::Draining as i64);
+                    obs(
+                        "obs.submit",
+                        i64::from(ok),
+                        vec![kvi("id", id), kvi("key", key as i64), kvi("ttl", ttl.map(|t| t as i64).unwrap_or(-1)), kvi("port", 0),
+                             kvi("prio", if prioq { prio_of(key) as i64 } else { 0 }), kvi("nd", i64::from(nd)), kvi("retries", 0)],
+                    );
+                    RetriableMessage::new(key, JobMsg { id, beh, yields: 0, sleep_ms, tries: 0, reply: Some(port) }, MessageRetryStrategy::NoRetry)
+                };
+                let r = match ttl {
+                    None => f.call_job(key, build, None).await,
+                    Some(t) => f.call_job_with_options(key, build, JobOptions::new(Some(Duration::from_millis(t))), None).await,
+                };
+                match r {
+                    Ok(ractor::rpc::CallResult::Success(v)) => obs("obs.call_ret", 1, vec![kvi("id", id), kvi("v", v)]),
+                    _ => obs("obs.call_ret", 0, vec![kvi("id", id), kvi("v", -1)]),
+                }
             }
             COp::Adjust(n) => {
                 let ok = f.adjust_worker_pool(n).is_ok();
@@ -672,7 +703,7 @@ async fn client(sc: Arc<FScn>, w: W, f: ActorRef<FactoryMessage<u64, HMsg>>, ops
 }
 
 const FKEEP: &[&str] = &[
-    "obs.cfg", "obs.w_new", "obs.w_start", "obs.w_end", "obs.w_kill", "obs.w_stop", "obs.w_closing", "obs.discard", "obs.retry", "obs.hook", "obs.submit", "obs.reply", "obs.adjust",
+    "obs.cfg", "obs.w_new", "obs.w_start", "obs.w_end", "obs.w_kill", "obs.w_stop", "obs.w_closing", "obs.discard", "obs.retry", "obs.hook", "obs.submit", "obs.call_ret", "obs.reply", "obs.adjust",
     "obs.drain", "obs.update", "obs.q_sent", "obs.q_reply", "factory.step", "factory.cast", "guard.cleanup",
 ];
 
@@ -891,6 +922,15 @@ pub fn factory_micro(which: &str) -> Vec<FScn> {
             let mut s = base_scn(r, 1);
             s.limit = Some((1, newest));
             s.clients = vec![vec![job(1, 1, Beh::Ok, 20, false, None), rj(2, 1, 2, Beh::Ok, 0, None), rj(3, 1, 2, Beh::Ok, 0, None), sub(4, 1), COp::Sleep(30), rj(5, 1, 1, Beh::Ok, 0, None)]];
+            v.push(s);
+        }
+        // call_job / call_job_with_options: the caller waits for the worker's answer (or for the port to be dropped)
+        for r in [Routing::Queuer, Routing::KeyP] {
+            let mut s = base_scn(r, 1);
+            s.limit = Some((1, true));
+            s.clients = vec![vec![COp::Call { id: 1, key: 1, ttl: None, beh: Beh::Ok, sleep_ms: 10 }, COp::Call { id: 2, key: 1, ttl: Some(50), beh: Beh::Panic, sleep_ms: 0 },
+                                  COp::Call { id: 3, key: 2, ttl: Some(2), beh: Beh::Ok, sleep_ms: 0 }],
+                             vec![COp::Sleep(2), sub(4, 1), sub(5, 1), COp::Call { id: 6, key: 2, ttl: None, beh: Beh::Ok, sleep_ms: 0 }]];
             v.push(s);
         }
         // TTL: an expired job does not retry; rate limit and drain refusals do
@@ -1183,7 +1223,13 @@ pub fn rand_retry(rng: &mut Rng) -> FScn {
             _ => COp::Drain,
         });
     }
-    s.clients = vec![c0, c1, vec![COp::Sleep(280), COp::Query]];
+    let mut c3 = vec![];
+    for i in 0..rng.below(3) {
+        c3.push(COp::Sleep([0u64, 2, 8][rng.below(3)]));
+        c3.push(COp::Call { id: njobs as i64 + 1 + i as i64, key: KEYS[rng.below(nkeys)], ttl: if rng.chance(1, 3) { Some([5u64, 50][rng.below(2)]) } else { None },
+                            beh: if rng.chance(1, 5) { Beh::Panic } else { Beh::Ok }, sleep_ms: [0u64, 5, 20][rng.below(3)] });
+    }
+    s.clients = vec![c0, c1, vec![COp::Sleep(280), COp::Query], c3];
     s
 }
 
